@@ -137,9 +137,18 @@ impl<'a> ExpressionEvaluator<'a> {
                     ));
                 };
 
-                Ok(vec![DataType::Bool(Bool(
-                    (inner[0] >= low[0] && inner[0] <= high[0]) || *negated,
-                ))])
+                // x BETWEEN a AND b is (x >= a AND x <= b) in three-valued logic; NOT negates it.
+                let ge = inner[0].partial_cmp(&low[0]).map(|o| o != std::cmp::Ordering::Less);
+                let le = inner[0].partial_cmp(&high[0]).map(|o| o != std::cmp::Ordering::Greater);
+                let both = match (ge, le) {
+                    (Some(false), _) | (_, Some(false)) => Some(false),
+                    (Some(true), Some(true)) => Some(true),
+                    _ => None,
+                };
+                Ok(vec![match both {
+                    Some(b) => DataType::Bool(Bool(b != *negated)),
+                    None => DataType::Null,
+                }])
             }
             BoundExpression::Exists { query, negated } => {
                 todo!("Subquery evaluation is not yet implemented")
